@@ -12,6 +12,7 @@ GNext == /\ Len(hist) < Depth
          /\ \/ a.gen < MaxGen /\ a' = AbsOpen(a) /\ hist' = Append(hist, Step("open", "", 0, a'))
             \/ ~a.open /\ a' = AbsOpenFail(a) /\ hist' = Append(hist, Step("openfail", "", 0, a'))
             \/ a' = AbsClose(a) /\ hist' = Append(hist, Step("close", "", 0, a'))
+            \/ a' = AbsCloseFail(a) /\ hist' = Append(hist, Step("closefail", "", 0, a'))
             \/ \E kind \in Kinds, k \in 0..MaxAttempts :
                   /\ a.open /\ (k = 0 \/ (a.alive /\ Cause(kind) = "err"))
                   /\ (a.gen < MaxGen \/ k >= MaxAttempts \/ ~a.alive \/ Cause(kind) = "nil")
